@@ -27,6 +27,28 @@
 //!   C17:thick-duplicate       no pixel is yielded twice
 //!   C17:thick-band            perpendicular distance <= w/2 + 2.5:
 //!                                 4 cross(p)^2 <= (w + 5)^2 L2
+//!   C17:thick-band:wide-stroke-overcount
+//!                             KNOWN FINDING (known_findings.jsonl): the band predicate above fails, and
+//!                             the failure is explained by the thickness accumulator of
+//!                             `ParallelsIterator` not counting skipped `Extra` perpendicular steps.
+//!                             `next_parallel` advances the start point of a side by one pixel along the
+//!                             line's major axis for every `Extra` step of the perpendicular Bresenham
+//!                             walk, which moves all later parallels of that side |cross| = m =
+//!                             min(|dx|,|dy|) farther out (m/L pixels); `next` adds the matching `2m` to
+//!                             `thickness_accumulator` only when the step is RETURNED as an `Extra`
+//!                             parallel, not when it is skipped because the parallel error did not wrap.
+//!                             With sk(side) = the number of skipped `Extra` steps on the pixel's side
+//!                             (left: cross < 0, right: cross > 0) over the whole stroke, computed by the
+//!                             port `joins_port::skipped_extras` of that loop, the suffixed class is
+//!                             emitted exactly when EVERY pixel satisfies the band predicate after its
+//!                             uncounted displacement is discounted,
+//!                                 t = 2 |cross(p)| - 2 m sk(side(p)),   t <= 0 or t^2 <= (w + 5)^2 L2,
+//!                             (same tolerance 2.5 px; measured on 4000 strokes of width 13..=120 the
+//!                             discounted excess over w/2 stays within [-1.26, +1.11] px, the range
+//!                             [-1.21, +0.93] of narrow strokes, so the discount is the whole effect).
+//!                             Axis-parallel and diagonal lines skip no step (sk = 0): any band failure
+//!                             there, and any pixel outside the discounted band, stays `C17:thick-band`,
+//!                             a VIOLATION. First real failures at w = 34.
 //!   C17:thick-ends            projection not more than one pixel beyond either end:
 //!                                 dot(p) >= 0 or dot(p)^2 <= L2,   and
 //!                                 dot(p) <= L2 or (dot(p) - L2)^2 <= L2
@@ -37,16 +59,29 @@
 //!                                 (max cross(MID) - min cross(MID)) / L + 1  >=  w - 1,
 //!                             i.e. MID is non-empty and, for w >= 3,
 //!                                 (max cross - min cross)^2 >= (w - 2)^2 L2.
+//!   C17:thick-hole            the width is SOLID (the extent above ignores holes): every lattice point q
+//!                             of the ideal stroke shrunk by one pixel on every side is a stroked pixel,
+//!                                 4 cross(q)^2 <= (w - 2)^2 L2                       (|dist| <= w/2 - 1),
+//!                                 dot(q) >= 0, dot(q)^2 >= L2,  L2 - dot(q) >= 0, (L2 - dot(q))^2 >= L2
+//!                                                      (projection at least 1 px inside both ends),
+//!                             for w >= 2 and non-zero length. At the middle this is the text's "w - 1
+//!                             pixels wide" read as a solid width (w - 2 plus one pixel); away from the
+//!                             middle it states the same for the whole segment, which the code satisfies
+//!                             (no hole on any generated op, also with the end margin 0): one missing
+//!                             interior parallel, which the extent metric cannot see, fails it.
 //!   C17:thick-width1          for w = 1 the pixel list equals `points()` (same order)
 //!   zero-length lines (L2 = 0; the code strokes them as a horizontal line of length 0): the band /
 //!   ends / middle predicates are evaluated with d = (1, 0), L2 = 1, the direction the code uses.
 //!   C17:thick-width0          w = 0 yields no pixel
 //!   thick-draw-eq-pixels      `draw` = one `draw_iter` call with the sequence of `pixels()`
 //!
-//! Range of the random long lines: |dx|, |dy| <= 1000 and w <= 12, so that
-//! `(2w)^2 * L2` <= 576 * 2_000_000 < 2^31 and `thickness_accumulator^2` <= ((2w+3) L)^2 <
-//! (27 * 1415)^2 < 2^31: the i32 overflow of `thickness_threshold` for longer / wider lines is
-//! property C08's topic and deliberately outside this generator.
+//! Ranges. The code computes `length_squared` and `thickness_accumulator` in `i32` and (since /repo
+//! 2947525) `thickness_threshold` = (2w)^2 L2 in `i64`: what must hold is dx^2 + dy^2 < 2^31
+//! (|dx|, |dy| <= 32767) and `thickness_accumulator` <= 2wL + 4 max(|dx|,|dy|) < 2^31; overflow beyond
+//! that is property C08's topic. Random long lines: |dx|, |dy| <= 8000 with w in 1..=12, <= 1000 with
+//! w in 1..=40. Wide strokes (w in 13..=120, all claims of the sentence are checked on them): seeded
+//! random lines with |dx|, |dy| <= 10/30/100/300 - axis-parallel, diagonal, slopes m/M in 0.4..0.7
+//! (where the overcount is largest), steep/flat and arbitrary ones - plus a fixed list.
 use crate::common::*;
 use crate::m_line::{pts_digest, STARTS};
 use embedded_graphics::{
@@ -99,7 +134,45 @@ pub fn thick_oracle(ctx: &mut Ctx, s: Point, e: Point, w: u32, px: &[Point]) {
             cmax = cmax.max(cross);
         }
     }
-    ctx.expect(band_ok, "C17:thick-band", || {
+    // A failure of the band claim is attributed to the known finding only if every pixel is inside
+    // the band once the uncounted displacement of its side (skipped Extra steps) is discounted.
+    let (skl, skr, _) = joins_port::skipped_extras(((s.x as i64, s.y as i64), (e.x as i64, e.y as i64)), w);
+    let sk = (skl, skr);
+    let m = dx.abs().min(dy.abs());
+    let mut band_class = "C17:thick-band";
+    if !band_ok {
+        let explained = px.iter().all(|p| {
+            let cross = dx * (p.y - s.y) as i128 - dy * (p.x - s.x) as i128;
+            let side_sk = if cross < 0 { skl } else { skr } as i128;
+            let t = 2 * cross.abs() - 2 * m * side_sk;
+            t <= 0 || t * t <= (wi + 5) * (wi + 5) * l2
+        });
+        if explained {
+            band_class = "C17:thick-band:wide-stroke-overcount";
+        }
+    }
+    // evidence only: the largest distance beyond w/2 seen in the run (1/1000 px; the text allows 2500),
+    // as drawn and after discounting the skipped steps
+    {
+        let l = (l2 as f64).sqrt();
+        let (mut raw, mut disc) = (f64::MIN, f64::MIN);
+        for p in px {
+            let cross = dx * (p.y - s.y) as i128 - dy * (p.x - s.x) as i128;
+            let side_sk = if cross < 0 { skl } else { skr } as i128;
+            raw = raw.max(cross.abs() as f64 / l - w as f64 / 2.0);
+            disc = disc.max((cross.abs() - m * side_sk) as f64 / l - w as f64 / 2.0);
+        }
+        let bucket = if w <= 12 { "w<=12" } else if w < 34 { "w=13..33" } else { "w>=34" };
+        for (k, v) in [("as-drawn", raw), ("skipped-steps-discounted", disc)] {
+            let key = format!("thick:band-excess-max-milli-px({},{})", k, bucket);
+            let v = (v.max(0.0) * 1000.0).ceil() as u64;
+            let e = ctx.counters.entry(key).or_insert(0);
+            if v > *e {
+                *e = v;
+            }
+        }
+    }
+    ctx.expect(band_ok, band_class, || {
         let l = (l2 as f64).sqrt();
         let (mut lo, mut hi) = (0f64, 0f64);
         for p in px {
@@ -107,7 +180,11 @@ pub fn thick_oracle(ctx: &mut Ctx, s: Point, e: Point, w: u32, px: &[Point]) {
             lo = lo.min(c);
             hi = hi.max(c);
         }
-        format!("{:?}->{:?} w={} pixel farther than w/2+2.5 = {} from the line: signed distances span [{:.2}, {:.2}]", s, e, w, w as f64 / 2.0 + 2.5, lo, hi)
+        format!(
+            "{:?}->{:?} w={} pixel farther than w/2+2.5 = {} from the line: signed distances span [{:.2}, {:.2}]; skipped Extra steps left {} right {} = {:.2} / {:.2} px not counted",
+            s, e, w, w as f64 / 2.0 + 2.5, lo, hi, sk.0, sk.1,
+            dx.abs().min(dy.abs()) as f64 * sk.0 as f64 / l, dx.abs().min(dy.abs()) as f64 * sk.1 as f64 / l
+        )
     });
     ctx.expect(ends_ok, "C17:thick-ends", || format!("{:?}->{:?} w={} pixel more than 1 px beyond an end", s, e, w));
     let ext = if nmid > 0 { cmax - cmin } else { -1 };
@@ -115,7 +192,74 @@ pub fn thick_oracle(ctx: &mut Ctx, s: Point, e: Point, w: u32, px: &[Point]) {
     ctx.expect(mid_ok, "C17:thick-middle-width", || {
         format!("{:?}->{:?} w={} middle slab has {} px, perpendicular extent*L = {}", s, e, w, nmid, ext)
     });
+    let hs = holes(s, e, w, &set, 1);
+    ctx.expect(hs.is_empty(), "C17:thick-hole", || {
+        format!("{:?}->{:?} w={} {} lattice points within w/2-1 of the line and 1 px inside the ends are not stroked, e.g. {:?}", s, e, w, hs.len(), hs[0])
+    });
 }
+
+/// Integer points q of the ideal band interior that are not in `px`:
+///   perpendicular distance <= w/2 - 1:             4 cross(q)^2 <= (w - 2)^2 L2      (w >= 2)
+///   projection at least `margin` px inside both ends: dot(q) >= 0, dot(q)^2 >= margin^2 L2,
+///                                                   L2 - dot(q) >= 0, (L2 - dot(q))^2 >= margin^2 L2
+fn holes(s: Point, e: Point, w: u32, set: &HashSet<(i32, i32)>, margin: i128) -> Vec<Point> {
+    let (dx, dy) = ((e.x - s.x) as i128, (e.y - s.y) as i128);
+    let mut out = Vec::new();
+    if w < 2 || (dx == 0 && dy == 0) {
+        return out;
+    }
+    let l2 = dx * dx + dy * dy;
+    let wi = w as i128;
+    let xmajor = dx.abs() > dy.abs();
+    let (dm, dn) = if xmajor { (dx, dy) } else { (dy, dx) }; // major, minor delta
+    // half-width of the band measured along the minor axis: (w/2) * L / |dm| <= w (L <= sqrt2 |dm|)
+    let r = wi + 2;
+    let (a0, a1) = if dm >= 0 { (0, dm) } else { (dm, 0) };
+    for a in (a0 - r)..=(a1 + r) {
+        // centre of the band at major offset a: minor offset a * dn / dm
+        let c = (a * dn).div_euclid(dm);
+        for b in (c - r)..=(c + r) {
+            let (vx, vy) = if xmajor { (a, b) } else { (b, a) };
+            let cross = dx * vy - dy * vx;
+            let dot = dx * vx + dy * vy;
+            if 4 * cross * cross > (wi - 2) * (wi - 2) * l2 {
+                continue;
+            }
+            let inside = dot >= 0 && dot * dot >= margin * margin * l2 && l2 - dot >= 0 && (l2 - dot) * (l2 - dot) >= margin * margin * l2;
+            if !inside {
+                continue;
+            }
+            let q = (s.x + vx as i32, s.y + vy as i32);
+            if !set.contains(&q) {
+                out.push(Point::new(q.0, q.1));
+            }
+        }
+    }
+    out
+}
+
+/// Wide strokes run in every tier: the witnesses of C17:thick-band:wide-stroke-overcount (first failing
+/// width 34; short lines fail too), and axis-parallel / diagonal / zero-length / steep / flat wide strokes.
+const WIDE_FIXED: [(i32, i32, i32, i32, u32); 18] = [
+    (119, 57, -119, -52, 34),
+    (0, 0, 100, 50, 60),
+    (-100, 50, 150, 260, 85),
+    (26, -21, 1, 19, 38),
+    (-9, -2, 14, -17, 36),
+    (119, 57, -119, -52, 33),
+    (0, 0, 40, 0, 50),
+    (0, 0, 0, -30, 64),
+    (5, 5, 35, 35, 48),
+    (5, 5, -25, 35, 77),
+    (7, -7, 7, -7, 40),
+    (0, 0, 3, 60, 90),
+    (0, 0, -80, 5, 120),
+    (0, 0, 50, 30, 34),
+    (0, 0, 50, 30, 119),
+    (0, 0, 1, 0, 100),
+    (0, 0, 1, 1, 100),
+    (0, 0, 2, 1, 100),
+];
 
 fn emit_grid(r: i32, wmax: u32, emit: &mut dyn FnMut(String)) {
     for (sx, sy) in STARTS {
@@ -135,8 +279,11 @@ impl Module for M {
     }
     fn rule(&self) -> &'static str {
         "C17: all lines start -> start + (dx,dy), (dx,dy) in [-R,R]^2, x stroke widths 1..=W (R,W = 9,7 quick; 20,12 thorough) \
-         from 3 start points, width 0 on a small grid, then seeded random long lines with |dx|,|dy| <= 1000, w in 1..=12 \
-         (the non-overflowing range of thickness_threshold); non-trivial = width >= 2; distinct = distinct op text. \
+         from 3 start points, width 0 on a small grid, then seeded random long lines (|dx|,|dy| <= 8000 with w in 1..=12, \
+         <= 1000 with w in 1..=40) and wide strokes w in 13..=120 (fixed witnesses of the known finding \
+         C17:thick-band:wide-stroke-overcount, 16 octant variants at w = 40, seeded random lines up to 300 px: axis-parallel, \
+         diagonal, slopes 0.4..0.7, steep/flat, arbitrary; 120 quick / 3000 thorough); counters thick:w=.. (widths above 12 in \
+         buckets), thick:wide; non-trivial = width >= 2; distinct = distinct op text. \
          C02/C07/C19 (joins): ALL polylines with 2 and 3 vertices on a 5x5 lattice crossing the axes with irregular spacing \
          (x in -4,-1,0,2,6; y in -5,-2,0,1,3; repeated vertices, reversals and colinear triples included; thorough 6x6) x widths \
          2..=5 (C19: width 1; thorough 2,3,5,7), a seeded sample of 4/5-vertex ones (arbitrary, closed-looking, self-overlapping, \
@@ -174,7 +321,8 @@ impl Module for M {
         }
         let n = if tier == Tier::Quick { 300 } else { 6000 };
         for _ in 0..n {
-            let sc = *rng.pick(&[30i64, 100, 300, 1000]);
+            // (scale, largest width): pixel counts stay below ~100k per op
+            let (sc, wmax) = *rng.pick(&[(30i64, 40i64), (100, 40), (300, 40), (1000, 40), (1000, 12), (8000, 12)]);
             let (x0, y0) = (rng.range(-2000, 2000), rng.range(-2000, 2000));
             let (dx, dy) = match rng.below(10) {
                 0 => (rng.range(-sc, sc), 0),
@@ -185,7 +333,52 @@ impl Module for M {
                 }
                 _ => (rng.range(-sc, sc), rng.range(-sc, sc)),
             };
-            let w = rng.range(1, 12);
+            let w = if rng.chance(2, 3) { rng.range(1, 12) } else { rng.range(1, wmax) };
+            emit(format!("thick.points {} {} {} {} {}", x0, y0, x0 + dx, y0 + dy, w));
+        }
+        // wide strokes (w in 13..=120): the known finding C17:thick-band:wide-stroke-overcount shows from
+        // w = 34; every other claim of the sentence is checked on them as well
+        for (x0, y0, x1, y1, w) in WIDE_FIXED {
+            emit(format!("thick.points {} {} {} {} {}", x0, y0, x1, y1, w));
+        }
+        for (sx, sy) in [(1, 1), (1, -1), (-1, 1), (-1, -1)] {
+            for (a, b) in [(20, 12), (12, 20), (30, 14), (9, 17)] {
+                emit(format!("thick.points 3 -2 {} {} 40", 3 + sx * a, -2 + sy * b));
+            }
+        }
+        for w in [13u32, 20, 33, 34, 47, 64, 85, 120] {
+            emit(format!("thick.bbox -3 2 47 32 {}", w));
+            emit(format!("thick.bbox -3 2 -9 -62 {}", w));
+        }
+        let nwide = if tier == Tier::Quick { 120 } else { 3000 };
+        for _ in 0..nwide {
+            let sc = *rng.pick(&[10i64, 30, 100, 300]);
+            let (x0, y0) = (rng.range(-200, 200), rng.range(-200, 200));
+            let sg = |rng: &mut Rng| if rng.chance(1, 2) { 1 } else { -1 };
+            let (dx, dy) = match rng.below(10) {
+                0 => (rng.range(-sc, sc), 0),
+                1 => (0, rng.range(-sc, sc)),
+                2 => {
+                    let d = rng.range(-sc, sc);
+                    (d, if rng.chance(1, 2) { d } else { -d })
+                }
+                3..=5 => {
+                    // slope minor/major in 0.4..0.7, any octant
+                    let mj = rng.range(1, sc);
+                    let mn = mj * rng.range(40, 70) / 100;
+                    let (a, b) = if rng.chance(1, 2) { (mj, mn) } else { (mn, mj) };
+                    (a * sg(rng), b * sg(rng))
+                }
+                6 => {
+                    // steep / flat
+                    let mj = rng.range(1, sc);
+                    let mn = rng.range(0, 1 + mj / 8);
+                    let (a, b) = if rng.chance(1, 2) { (mj, mn) } else { (mn, mj) };
+                    (a * sg(rng), b * sg(rng))
+                }
+                _ => (rng.range(-sc, sc), rng.range(-sc, sc)),
+            };
+            let w = rng.range(13, 120);
             emit(format!("thick.points {} {} {} {} {}", x0, y0, x0 + dx, y0 + dy, w));
         }
     }
@@ -199,7 +392,15 @@ impl Module for M {
                 let w = t.u32();
                 let styled = Line::new(s, e).into_styled(PrimitiveStyle::with_stroke(BinaryColor::On, w));
                 let px: Vec<Point> = styled.pixels().map(|Pixel(p, _)| p).collect();
-                ctx.count(&format!("thick:w={}", w));
+                ctx.count(&match w {
+                    0..=12 => format!("thick:w={}", w),
+                    13..=33 => "thick:w=13..33".to_string(),
+                    34..=64 => "thick:w=34..64".to_string(),
+                    _ => "thick:w=65..".to_string(),
+                });
+                if w >= 13 {
+                    ctx.count("thick:wide");
+                }
                 let (dx, dy) = (e.x - s.x, e.y - s.y);
                 ctx.count(if dx == 0 && dy == 0 {
                     "thick:zero-length"
@@ -660,6 +861,9 @@ pub mod joins_port {
         right_error: i64,
         next_left: bool,
         offset: u8,
+        /// perpendicular `Extra` steps taken by `next_parallel` WITHOUT returning a parallel (the
+        /// parallel error did not wrap), per side: [left, right]
+        skipped: [u64; 2],
     }
     impl Par {
         fn new(l: L, thickness: i64, offset: u8) -> Par {
@@ -672,7 +876,7 @@ pub mod joins_port {
             let acc = (par.step_minor + par.step_major) / 2;
             let flip = perp.pos_minor == (-par.pos_major.0, -par.pos_major.1);
             let next_left = offset == 1;
-            let mut s = Par { par, perp, acc, thr, flip, left: Br { p: start, e: 0 }, left_error: 0, right: Br { p: start, e: 0 }, right_error: 0, next_left, offset };
+            let mut s = Par { par, perp, acc, thr, flip, left: Br { p: start, e: 0 }, left_error: 0, right: Br { p: start, e: 0 }, right_error: 0, next_left, offset, skipped: [0, 0] };
             s.next_parallel(!next_left);
             s
         }
@@ -693,6 +897,7 @@ pub mod joins_port {
                 } else if par.increase(error) {
                     return (point, *error);
                 }
+                self.skipped[if left { 0 } else { 1 }] += 1;
             }
         }
         /// (start point of the parallel, is_extra)
@@ -707,6 +912,16 @@ pub mod joins_port {
             }
             Some(point)
         }
+    }
+    /// Runs `ParallelsIterator::new(l, w, StrokeOffset::None)` to its end, as `ThickPoints` does, and
+    /// returns (skipped `Extra` steps on the left side, on the right side, parallels returned).
+    pub fn skipped_extras(l: L, thickness: u32) -> (u64, u64, u64) {
+        let mut it = Par::new(l, thickness.min(i32::MAX as u32) as i64, 0);
+        let mut n = 0;
+        while it.next().is_some() {
+            n += 1;
+        }
+        (it.skipped[0], it.skipped[1], n)
     }
     /// `Line::extents`: (left line, right line)
     pub fn extents(l: L, thickness: u32, offset: u8) -> (L, L) {
